@@ -460,8 +460,8 @@ def varr_case(ops, tag):
     return diff is None and not viol, diff, viol, len(hch), sum(1 for c in hch if any(e.startswith("r ") for e in c[1]))
 
 
-def shrink_ops(ops, fails, budget=60):
-    """greedy: shortest failing prefix, then drop single ops"""
+def shrink_ops(ops, fails, budget=160):
+    """shortest failing prefix, then delta debugging: drop chunks of halving size down to single ops"""
     best = list(ops)
     lo, hi = 1, len(best)
     while lo < hi and budget > 0:
@@ -472,14 +472,19 @@ def shrink_ops(ops, fails, budget=60):
         else:
             lo = mid + 1
     best = best[:hi]
-    i = 0
-    while i < len(best) and budget > 0:
-        cand = best[:i] + best[i + 1:]
-        budget -= 1
-        if cand and fails(cand):
-            best = cand
-        else:
-            i += 1
+    chunk = max(1, len(best) // 2)
+    while budget > 0:
+        i, removed = 0, False
+        while i < len(best) and budget > 0:
+            cand = best[:i] + best[i + chunk:]
+            budget -= 1
+            if cand and fails(cand):
+                best, removed = cand, True
+            else:
+                i += chunk
+        if chunk == 1 and not removed:
+            break
+        chunk = max(1, chunk // 2)
     return best
 
 
@@ -551,6 +556,11 @@ def gen_code_ops(rng, n):
             ops.append(f"updpb {rng.below(1000)} {rng.below(8)} {rng.below(64)}")
     if not any(o.startswith("publish") and int(o.split()[1]) > 9000 for o in ops):
         ops.insert(0, "publish 12000 0 0")
+    # patches at page edges: ending exactly at a page end, starting exactly at a page start, ending at
+    # the end of the mapping (after `fill`)
+    for mode in (0, 1, 0, 1):
+        ops.insert(1 + rng.below(len(ops)), f"chgpe {rng.below(1000)} {mode} {rng.below(64)}")
+    ops += ["fill 0 0 0", f"chgpe 0 2 {rng.below(64)}", f"chgpe 0 2 0"]
     ops.append(f"updpb {rng.below(1000)} {rng.below(8)} {8 * rng.below(8)}")      # exactly at the boundary
     ops.append(f"updpb {rng.below(1000)} {rng.below(8)} {1 + rng.below(7)}")      # straddling it
     return ops
@@ -580,6 +590,18 @@ def merge_writes(evs):
     return out
 
 
+def window_pages(evs, ps):
+    """(first page, last page, text) of the PROT_WRITE_EXEC request of one operation, None if none/empty"""
+    for e in evs:
+        w = e.split()
+        if w[0] == "P" and w[3] == "w":
+            s_, l_ = int(w[1]), int(w[2])
+            if l_ == 0:
+                return None
+            return (s_ // ps, (s_ + l_ - 1) // ps, f"mem_protect({s_}, {l_})")
+    return None
+
+
 def code_case(ops, tag):
     opf = os.path.join(WORK, tag + ".cops")
     with open(opf, "w") as f:
@@ -599,7 +621,18 @@ def code_case(ops, tag):
     p = subprocess.run([DRV, "code"], input=inp, stdout=subprocess.PIPE, text=True)
     mch = model_chunks(p.stdout, lambda l: bool(CODEOP.match(l)))
     viol, st, _ = judge(res, ["code"])
+    ps = next((int(l.split()[1]) for l in setup if l.startswith("ps ")), 4096)
     diff = None
+    # search stage: a write window that is not the page span the (proved) model requests — wider means
+    # write access to pages nobody writes, possibly pages outside this context's mappings
+    for k, (a, b) in enumerate(zip(hch, mch)):
+        wi, wm = window_pages(a[1], ps), window_pages(b[1], ps)
+        if a[0] == b[0] and wi is not None and wm is not None and wi != wm:
+            kind = "wider than" if (wi[0] <= wm[0] and wi[1] >= wm[1]) else "different from"
+            viol.append(("C17:code-window-not-minimal",
+                         f"`{a[0]}`: write access requested for pages {wi[0]}..{wi[1]} ({wi[2]}), {kind} the minimal page span "
+                         f"{wm[0]}..{wm[1]} of the written bytes ({wm[2]})", f"op #{k} {a[0]}: impl {wi[2]} model {wm[2]}"))
+            break
     for k, (a, b) in enumerate(zip(hch, mch)):
         if (a[0], merge_writes(a[1]), a[2]) != (b[0], merge_writes(b[1]), b[2]):
             diff = {"op_index": k, "op": a[0], "impl_events": merge_writes(a[1]), "impl_result": a[2],
